@@ -11,8 +11,12 @@ are about the interpreter applied to the generated description)
 controlled `os.environ`, every declared value read after every operation and compared with the model; direct
 `ConfigValue.parse` calls compared with the model's parser).
 The independent oracle keeps its own shadow of "what was assigned / what is in the environment" and judges every read from
-the property text.
+the property text.  WHICH attributes of a decorated class (and of the core `Config`, whose body is read from the source text)
+must be configuration values is decided by the oracle from the names (`str.isupper()`, no leading underscore) - never from
+what the implementation created: a declared name that silently stays a plain attribute, a class that cannot be created, a
+descriptor that lacks `env_var` are oracle findings / differences to the model, not harness errors.
 """
+import ast
 import enum
 import json
 import math
@@ -27,25 +31,74 @@ ID = "C20"
 LEAN_MODULES = ["PyrollProps.C20"]
 MODEL = "c20"
 MODEL_MODULES = ["PyrollModel.ConfigDriver"]
-RULE = ("(a) histories: 1-3 config classes (the core Config, @config classes, hand-written ConfigMeta metaclasses; values of "
+RULE = ("(a) histories: 1-3 config classes (the core Config with the names of its class body as read from the source, @config "
+        "classes, hand-written ConfigMeta metaclasses; value names of every shape str.isupper() accepts - single letters, digits, "
+        "inner/trailing/double underscores, non-ASCII capitals - next to attributes that must stay plain - leading underscore, "
+        "lower/mixed case, uncased letters; values of "
         "every supported type, custom parsers, env_var overrides, shared prefixes) x 4-24 operations "
         "(assign incl. falsy/None/foreign values, delete incl. of unset values, setenv with rendered values in letter-case / "
         "blank variants, known-unparseable and random texts, unsetenv, bulk update incl. unknown names); every declared value is "
         "read after every operation. non-trivial = at least one environment change AND one explicit change; distinct by the "
         "canonical case. (b) direct parse calls: per type rendered values with decorations, malformed and random texts. "
-        "(c) str(int) / ','.join against the model's render functions.")
+        "(c) str(int) / ','.join / str.isupper (every code point below 256, random Latin-1 names) against the model's functions.")
 ASSUMPTIONS = [
     "CPython int()/float()/Path()/str.strip/str.lower/str.upper/os.getenv/enum lookup are parameters: the model covers ASCII "
     "case mapping and the white space of the Latin-1 range; float and Path text forms are symbolic in the model "
     "(float(repr(x)) == x and Path(str(p)) == p are CPython guarantees)",
     "the empty text is outside the inversion statement for collections (''.split(',') == [''], and '' is no k=v mapping)",
     "an explicitly assigned None counts as 'not set' (the implementation's sentinel); the oracle does not judge it",
+    "attribute names: the model's str.isupper covers the cased characters below code point 256 (table compared with CPython on "
+    "every run) and treats everything above as uncased; the generators use Latin-1 letters and uncased CJK letters only",
     "lower-case value names (possible only on hand-written metaclasses) use the upper-cased name in the environment variable; "
     "without a prefix the variable name is not judged by the oracle (the model mirrors the module-derived prefix)",
 ]
 TRUSTED_EXTRA = ["translator driver/translate/c20_config.py (whitelisted AST shapes of config.py -> Gen/C20.lean)"]
 
 FREE = object()          # oracle: no expectation
+MISSING = object()
+
+
+class ImplBroken(Exception):
+    """The implementation under test lacks / refuses something every config class needs (the module has no `config`, creating a
+    class or a ConfigValue raises …).  Reported as an oracle finding with the case as replay - never a harness crash."""
+
+    def __init__(self, key, what):
+        super().__init__(what)
+        self.key, self.what = key, what
+
+
+def cfgmod():
+    import sys
+    import pyroll.core  # noqa
+    return sys.modules["pyroll.core.config"]
+
+
+def api(name):
+    try:
+        return getattr(cfgmod(), name)
+    except AttributeError:
+        raise ImplBroken("api-missing", f"pyroll.core.config has no attribute {name!r}")
+
+
+def impl_call(what, f, *a, **kw):
+    """call into the implementation where the property leaves no room for an exception"""
+    try:
+        return f(*a, **kw)
+    except ImplBroken:
+        raise
+    except Exception as e:
+        raise ImplBroken("config-class-creation-raised", f"{what} raised {type(e).__name__}: {e}")
+
+
+def desc_of(cls, name):
+    """the ConfigValue descriptor of `name` on the metaclass of `cls`, None when the implementation created none"""
+    d = vars(type(cls)).get(name, None)
+    return d if isinstance(d, api("ConfigValue")) else None
+
+
+def should_be_config(name):
+    """the property text / the decorator's contract: the upper-case public names (python's own str.isupper is the reference)"""
+    return name.isupper() and not name.startswith("_")
 
 
 # ---------------------------------------------------------------------------------------------------------------------
@@ -94,9 +147,10 @@ ENUMS = [
 def make_enum(i):
     name, base, members = ENUMS[i]
     if base == "real":
-        import sys
-        import pyroll.core  # noqa
-        return sys.modules["pyroll.core.config"].PlottingBackend
+        pb = getattr(cfgmod(), "PlottingBackend", None)
+        if isinstance(pb, type) and issubclass(pb, enum.Enum) and all(isinstance(m.value, int) for m in pb):
+            return pb
+        return enum.Enum("PlottingBackend", [("PLOTLY", 1), ("MATPLOTLIB", 2)])     # the shape documented for the core
     cls = enum.IntEnum if base == "IntEnum" else enum.Enum
     return cls(name, members)
 
@@ -326,36 +380,55 @@ def ty_token(world, v):
 
 
 def build_class(world, ci, c):
-    """-> (the real class, {name: default object})"""
-    import sys
-    import pyroll.core  # noqa
-    cfgmod = sys.modules["pyroll.core.config"]
-    if c["style"] == "core":
-        return cfgmod.Config, {v["name"]: type(cfgmod.Config).__dict__[v["name"]].default for v in c["values"]}
+    """-> (the real class, {name: default object}); the defaults are those WRITTEN in the class body (for the core Config: read
+    from the source text by `core_class_spec`), never what the implementation stored"""
     defaults = {v["name"]: world.value(v["default"]) for v in c["values"]}
+    if c["style"] == "core":
+        cls = api("Config")
+        if not isinstance(cls, type):
+            raise ImplBroken("api-missing", f"pyroll.core.config.Config is {cls!r}, not a class")
+        return cls, defaults
+    CV = api("ConfigValue")
     if c["style"] == "decorator":
         ns = {"__module__": c["module"]}
         for v in c["values"]:
             if v.get("parser") is not None or v.get("override") or v.get("wrapped"):
-                ns[v["name"]] = cfgmod.ConfigValue(defaults[v["name"]], env_var=v.get("override") or None,
-                                                   parser=PARSERS[v["parser"]] if v.get("parser") is not None else None)
+                ns[v["name"]] = impl_call(f"ConfigValue({defaults[v['name']]!r}, env_var=…, parser=…)", CV, defaults[v["name"]],
+                                          env_var=v.get("override") or None,
+                                          parser=PARSERS[v["parser"]] if v.get("parser") is not None else None)
             else:
                 ns[v["name"]] = defaults[v["name"]]
         for n, val in c.get("extras", []):
             ns[n] = val
-        cls = cfgmod.config(c["prefix"])(type(f"Cfg{ci}", (), ns))
+        body = type(f"Cfg{ci}", (), ns)
+        dec = impl_call(f"config({c['prefix']!r})", api("config"), c["prefix"])
+        cls = impl_call(f"class {ci}: @config({c['prefix']!r}) on a class with the attributes {[k for k in ns if k != "__module__"]}", dec, body)
+        if not isinstance(cls, type):
+            raise ImplBroken("config-class-creation-raised", f"class {ci}: @config({c['prefix']!r}) returned {cls!r}, not a class")
         return cls, defaults
     # hand-written metaclass
     ns = {"__module__": c["module"]}
     for v in c["values"]:
-        ns[v["name"]] = cfgmod.ConfigValue(defaults[v["name"]], env_var=v.get("override") or None,
-                                           env_var_prefix=c["prefix"] or None,
-                                           parser=PARSERS[v["parser"]] if v.get("parser") is not None else None)
-    meta = type(f"Cfg{ci}Meta", (cfgmod.ConfigMeta,), ns)
+        ns[v["name"]] = impl_call(f"ConfigValue({defaults[v['name']]!r}, …)", CV, defaults[v["name"]],
+                                  env_var=v.get("override") or None, env_var_prefix=c["prefix"] or None,
+                                  parser=PARSERS[v["parser"]] if v.get("parser") is not None else None)
+    meta = impl_call(f"class {ci}: metaclass deriving from ConfigMeta with the descriptors {[k for k in ns if k != "__module__"]}", type,
+                     f"Cfg{ci}Meta", (api("ConfigMeta"),), ns)
     cns = {"__module__": c["module"]}
     for n, val in c.get("extras", []):
         cns[n] = val
-    return meta(f"Cfg{ci}", (), cns), defaults
+    return impl_call(f"class {ci}: instantiating the metaclass", meta, f"Cfg{ci}", (), cns), defaults
+
+
+def extra_tokens(val):
+    """(type token, value token) of a plain attribute of a class body"""
+    if isinstance(val, bool):
+        return "bool", "B1" if val else "B0"
+    if isinstance(val, int):
+        return "int", f"I{val}"
+    if isinstance(val, str):
+        return "str", "S" + enc_text(val)
+    raise core.InfraError(f"plain attribute value {val!r}: only int / str are used")
 
 
 def spec_module(c):
@@ -391,43 +464,84 @@ def is_ours(k):
 # ---------------------------------------------------------------------------------------------------------------------
 # executing one case on the implementation (+ oracle) and producing the model's input lines
 # ---------------------------------------------------------------------------------------------------------------------
+def check_names(case):
+    """harness invariant (generator / replay file): in decorated classes `values` are the upper-case public names of the body,
+    `extras` the others"""
+    for ci, c in enumerate(case["classes"]):
+        if c["style"] == "meta":
+            continue
+        for v in c["values"]:
+            if not should_be_config(v["name"]):
+                raise core.InfraError(f"case: class {ci} lists {v['name']!r} as a config value of a decorated class")
+        for n, _ in c.get("extras", []):
+            if should_be_config(n):
+                raise core.InfraError(f"case: class {ci} lists {n!r} as a plain attribute of a decorated class")
+
+
 def exec_case(case):
     """-> (lines, impl_out, problems, world);  problems = [(key, what, op_index)]"""
+    check_names(case)
     world = World(case)
     lines, out, problems = ["reset"], ["ok"], []
     saved_env = {k: os.environ[k] for k in list(os.environ) if is_ours(k)}
     for k in saved_env:
         del os.environ[k]
-    core_saved = None
+    core_snap = None
     classes = []
+
+    def absent(ci, name):
+        return case["classes"][ci]["style"] != "meta" and desc_of(classes[ci][0], name) is None
+
+    def flag(ci, name, key, what, i):
+        """a problem of a declared value; when the implementation never made it a configuration value, say so"""
+        if absent(ci, name):
+            key = "declared-name-not-config-value"
+            what = (f"class {ci}: the upper-case public attribute {name} was not turned into a configuration value (no "
+                    f"ConfigValue descriptor on the metaclass, it stays a plain class attribute): " + what)
+        problems.append((key, what, i))
+
     try:
         for ci, c in enumerate(case["classes"]):
             cls, defaults = build_class(world, ci, c)
             classes.append((cls, defaults))
             if c["style"] == "core":
-                core_saved = {n: cls.__dict__["_" + n] for n in (v["name"] for v in c["values"])
-                              if "_" + n in cls.__dict__}
-                for n in core_saved:
-                    delattr(cls, "_" + n)
+                core_snap = (cls, dict(vars(cls)))
+                for v in c["values"]:
+                    if "_" + v["name"] in vars(cls):
+                        delattr(cls, "_" + v["name"])
             for v in c["values"]:
-                dtok = v["default"]
-                lines.append("cv %d %s %s %s %s %s %s %s" % (
-                    ci, enc_text(v["name"]), ty_token(world, v), model_token(dtok),
+                lines.append("%s %d %s %s %s %s %s %s %s" % (
+                    "cv" if c["style"] == "meta" else "attr",
+                    ci, enc_text(v["name"]), ty_token(world, v), model_token(v["default"]),
                     "-" if v.get("parser") is None else v["parser"], enc_text(v.get("override") or ""),
                     enc_text(c["prefix"]), enc_text(spec_module(c))))
-                out.append("ok")
+                out.append("ok" if c["style"] == "meta" else "cv" if desc_of(cls, v["name"]) is not None else "plain")
+            if c["style"] != "meta":
+                for n, val in c.get("extras", []):       # the model's decorator decides about them as well
+                    ty, tok = extra_tokens(val)
+                    lines.append(f"attr {ci} {enc_text(n)} {ty} {tok} - e {enc_text(c['prefix'])} {enc_text(spec_module(c))}")
+                    out.append("cv" if desc_of(cls, n) is not None else "plain")
         # env var naming
         env_vars = {}
         for ci, c in enumerate(case["classes"]):
             cls = classes[ci][0]
             for v in c["values"]:
-                got = type(cls).__dict__[v["name"]].env_var
+                d, got = desc_of(cls, v["name"]), None
+                if d is not None:
+                    try:
+                        got = d.env_var
+                    except Exception as e:
+                        problems.append(("env-var-name", f"class {ci} value {v['name']}: reading env_var raised {e!r}", -1))
+                    if got is not None and not isinstance(got, str):
+                        problems.append(("env-var-name", f"class {ci} value {v['name']}: env_var is {got!r}", -1))
+                        got = None
                 lines.append(f"envname {ci} {enc_text(v['name'])}")
-                out.append(enc_text(got))
-                env_vars[(ci, v["name"])] = oracle_env_name(c, v) or got
-                if oracle_env_name(c, v) is not None and got != oracle_env_name(c, v):
+                out.append(enc_text(got) if got is not None else "absent")
+                want = oracle_env_name(c, v)
+                env_vars[(ci, v["name"])] = want or got or gen_env_name(c, v)
+                if want is not None and got is not None and got != want:
                     problems.append(("env-var-name", f"class {ci} value {v['name']}: env_var is {got!r}, expected "
-                                     f"{oracle_env_name(c, v)!r}", -1))
+                                     f"{want!r}", -1))
         shadow_x = {}          # (ci, name) -> explicitly assigned object | FREE
         shadow_env = {}
 
@@ -452,9 +566,8 @@ def exec_case(case):
                         if exc is not None or not same(got, x):
                             why = f"raised {type(exc).__name__}" if exc is not None else f"read {got!r}"
                             falsy = "" if x else "-falsy"
-                            problems.append(("resolve-explicit" + falsy, f"class {ci} value {v['name']}: explicitly "
-                                             f"assigned {x!r} but {why} (environment {var}="
-                                             f"{shadow_env.get(var)!r})", op_index))
+                            flag(ci, v["name"], "resolve-explicit" + falsy, f"class {ci} value {v['name']}: explicitly "
+                                 f"assigned {x!r} but {why} (environment {var}={shadow_env.get(var)!r})", op_index)
                     elif var in shadow_env:
                         exp = expect_parse(world, v, shadow_env[var])
                         bad = judge(world, exp, got, exc)
@@ -465,15 +578,14 @@ def exec_case(case):
                                 k_ = "resolve-env-ignored"       # parse is fine: the environment was not consulted
                             else:
                                 k_ = f"parse-{kind_key(v)}" + variant_key(world, v, shadow_env[var])
-                            problems.append((k_, f"class {ci} value {v['name']} ({kind_key(v)}) with {var}="
-                                             f"{shadow_env[var]!r} and no explicit value: {bad}", op_index))
+                            flag(ci, v["name"], k_, f"class {ci} value {v['name']} ({kind_key(v)}) with {var}="
+                                 f"{shadow_env[var]!r} and no explicit value: {bad}", op_index)
                     else:
                         if exc is not None or not same(got, defaults[v["name"]]):
                             why = f"raised {type(exc).__name__}: {exc}" if exc is not None else f"read {got!r}"
-                            problems.append(("resolve-default", f"class {ci} value {v['name']}: nothing assigned, {var} "
-                                             f"not in the environment, default {defaults[v['name']]!r} but {why}",
-                                             op_index))
-                # attributes that are no config values stay what they are
+                            flag(ci, v["name"], "resolve-default", f"class {ci} value {v['name']}: nothing assigned, {var} "
+                                 f"not in the environment, default {defaults[v['name']]!r} but {why}", op_index)
+                # attributes that are no config values stay what they are (whatever the environment holds)
                 for n, val in c.get("extras", []):
                     try:
                         g = getattr(cls, n)
@@ -481,7 +593,7 @@ def exec_case(case):
                         g = e
                     if not same(g, val):
                         problems.append(("non-config-attribute", f"class {ci}: plain attribute {n} reads {g!r}, was "
-                                         f"defined as {val!r}", op_index))
+                                         f"defined as {val!r} (environment: {shadow_env!r})", op_index))
 
         observe(-1)
         for i, op in enumerate(case["ops"]):
@@ -496,7 +608,7 @@ def exec_case(case):
                     setattr(cls, n, val)
                 except Exception as e:
                     exc = e
-                    problems.append(("assign-raised", f"class {ci}: assigning {n} = {val!r} raised {e!r}", i))
+                    flag(ci, n, "assign-raised", f"class {ci}: assigning {n} = {val!r} raised {e!r}", i)
                 shadow_x[(ci, n)] = val
             elif name == "delete":
                 _, ci, n = op
@@ -507,7 +619,7 @@ def exec_case(case):
                 except Exception as e:
                     exc = e
                     if (ci, n) in shadow_x and shadow_x[(ci, n)] is not FREE:
-                        problems.append(("delete-raised", f"class {ci}: del {n} raised {e!r} although a value was assigned", i))
+                        flag(ci, n, "delete-raised", f"class {ci}: del {n} raised {e!r} although a value was assigned", i)
                 shadow_x.pop((ci, n), None)
             elif name == "setenv":
                 _, var, text = op
@@ -527,7 +639,11 @@ def exec_case(case):
                 known_names = {v["name"] for v in case["classes"][ci]["values"]}
                 unknown = [n for n in d if n not in known_names]
                 try:
-                    cls.update(d)
+                    upd = getattr(cls, "update")
+                except Exception as e:
+                    raise ImplBroken("api-missing", f"class {ci} has no bulk update: {e!r}")
+                try:
+                    upd(d)
                 except Exception as e:
                     exc = e
                 if unknown:
@@ -539,32 +655,49 @@ def exec_case(case):
                             shadow_x[(ci, n)] = FREE
                 else:
                     if exc is not None:
-                        problems.append(("update-known-raised", f"class {ci}: update({d!r}) raised {exc!r}", i))
-                    for n, val in d.items():
-                        shadow_x[(ci, n)] = val
+                        miss = [n for n in d if absent(ci, n)]
+                        if miss:
+                            flag(ci, miss[0], "update-known-raised", f"class {ci}: update({d!r}) raised {exc!r}", i)
+                        else:
+                            problems.append(("update-known-raised", f"class {ci}: update({d!r}) raised {exc!r}", i))
+                    for n, val in d.items():       # (reported; which of the named values were stored by then is open)
+                        shadow_x[(ci, n)] = val if exc is None else FREE
             else:
                 raise ValueError(op)
             out.append("ok" if exc is None else "err " + err_name(exc))
             observe(i)
+    except ImplBroken as e:
+        # the case cannot be carried on; what was executed so far stays comparable with the model
+        problems.append((e.key, e.what, len(case["ops"]) - 1))
+        n = min(len(lines), len(out))
+        del lines[n:], out[n:]
     finally:
         for k in [k for k in os.environ if is_ours(k)]:
             del os.environ[k]
         os.environ.update(saved_env)
-        for ci, c in enumerate(case["classes"]):
-            if c["style"] == "core" and ci < len(classes):
-                cls = classes[ci][0]
-                for v in c["values"]:
-                    if "_" + v["name"] in cls.__dict__:
-                        delattr(cls, "_" + v["name"])
-                for n, val in (core_saved or {}).items():
-                    setattr(cls, "_" + n, val)
+        if core_snap is not None:        # the core Config is shared with the rest of the process: put back what was there
+            cls, snap = core_snap
+            for k in [k for k in vars(cls) if k not in snap]:
+                try:
+                    delattr(cls, k)
+                except Exception:
+                    pass
+            for k, val in snap.items():
+                if vars(cls).get(k, MISSING) is not val:
+                    try:
+                        setattr(cls, k, val)
+                    except Exception:
+                        pass
     return lines, out, problems, world
 
 
 def parses_directly(cls, v, text, expected):
     """does the descriptor's own parse give the expected value (then a wrong read is a resolution problem)"""
+    d = desc_of(cls, v["name"])
+    if d is None:
+        return False
     try:
-        return same(type(cls).__dict__[v["name"]].parse(text), expected)
+        return same(d.parse(text), expected)
     except Exception:
         return False
 
@@ -594,8 +727,14 @@ def variant_key(world, v, text):
 # ---------------------------------------------------------------------------------------------------------------------
 # generators
 # ---------------------------------------------------------------------------------------------------------------------
-UPPER_NAMES = ["A", "B", "FLAG", "MAX_COUNT", "X1", "PATH_", "MODE", "ITEMS", "PAIRS", "Z_9", "NAME"]
+# every shape `str.isupper()` accepts for a public name: single letters, digits inside / at the end, inner / trailing / double
+# underscores, non-ASCII capitals (Latin-1: the range the model's table covers)
+UPPER_NAMES = ["A", "B", "FLAG", "MAX_COUNT", "X1", "PATH_", "MODE", "ITEMS", "PAIRS", "Z_9", "NAME", "Q", "L2_NORM_LIMIT",
+               "UTF8", "A__B", "N0_1_2", "R2D2", "\xc4B", "\xd8RE_1", "\xde", "GR\xd6SSE"]
 ANY_NAMES = ["lower", "Mixed_Name", "x1", "camelCase"]
+# attributes of a decorated class that must stay plain: leading underscore, lower / mixed case (also non-ASCII), no cased letter
+PLAIN_ATTRS = [["lower_attr", 11], ["_PRIV", "p"], ["Mixed", 0], ["_X", 3], ["__DUNDERISH", 4], ["x1", 5], ["aB", "q"],
+               ["A_b", 6], ["\xe4B", 7], ["\xc4\xdf", 8], ["_1", 9], ["\u6570", 10], ["\u6570_1", "r"], ["T\xfcR", 12]]
 PREFIXES = ["VC20A", "VC20_B", "VC20X_Y_Z", "vc20low", "VC20A"]
 OVERRIDES = ["VC20OV_ONE", "VC20OV_TWO", "vc20_lower_var", "VC20A_A", "VC20SHARED"]
 POOL = [("float", "0.0"), ("float", "2.5"), ("float", "-1.5e-07"), ("float", "inf"), ("bytes", ""), ("ints", [1, 2]),
@@ -604,6 +743,9 @@ KINDS = ["bool", "int", "float", "str", "path", "enum", "list", "tuple", "dict",
 BLANKS = ["", "", " ", "  ", "\t", " \n", "\xa0", "\x1c"]
 ALPHABET = "aAbBzZxX019 _-+=,;:./\t\ntTrRuUeEfFaAlLsS"
 WORDS = ["a", "b", "abc", "A b", "x_1", "", "0", "true", "Key", "v/w", "tmp/x.txt", "e-1"]
+
+
+NAME_ALPHABET = "AZaz09__XQ\xc4\xd6\xd8\xde\xdf\xe4\xff\xaa\xb5\xba\xd7\xf7\u6570\u3042"
 
 
 def rnd_text(rng, lo=0, hi=8):
@@ -755,29 +897,60 @@ def gen_value_spec(rng, name, style):
     return v
 
 
+_CORE_SPEC = []
+
+
 def core_class_spec():
-    """the core Config as a class spec (read from the real class: names, defaults, kinds)"""
-    import sys
-    import pyroll.core  # noqa
-    cfg = sys.modules["pyroll.core.config"].Config
-    vals, pool = [], list(POOL)
-    for n, cv in type(cfg).__dict__.items():
-        if not isinstance(cv, sys.modules["pyroll.core.config"].ConfigValue):
+    """the core Config as a class spec.  Names, defaults and prefix are read from the SOURCE TEXT of the class body
+    (`@config("…") class Config: NAME = <literal>`), not from the descriptors the implementation created: which of the names
+    are configuration values is for the oracle to say.  -> (spec, pool) | (None, reason)"""
+    _init_enum_members()
+    if _CORE_SPEC:
+        return json.loads(json.dumps(_CORE_SPEC[0])), list(_CORE_SPEC[1])
+    path = os.path.join(core.REPO, "pyroll", "core", "config.py")
+    tree = ast.parse(open(path).read())
+    cdef = next((n for n in tree.body if isinstance(n, ast.ClassDef) and n.name == "Config"), None)
+    if cdef is None:
+        return None, "class Config not found in pyroll/core/config.py"
+    prefix = None
+    for d in cdef.decorator_list:
+        if isinstance(d, ast.Call) and isinstance(d.func, ast.Name) and d.func.id == "config" and len(d.args) == 1 \
+                and isinstance(d.args[0], ast.Constant) and isinstance(d.args[0].value, str):
+            prefix = d.args[0].value
+    if prefix is None:
+        return None, "class Config is not decorated with @config(\"<prefix>\")"
+    vals, extras, pool, skipped = [], [], list(POOL), []
+    for st in cdef.body:
+        if not (isinstance(st, ast.Assign) and len(st.targets) == 1 and isinstance(st.targets[0], ast.Name)):
             continue
-        d = cv.default
+        n, v = st.targets[0].id, None
+        try:
+            d = ast.literal_eval(st.value)
+        except Exception:
+            d = MISSING
         if isinstance(d, bool):
             v = {"name": n, "kind": "bool", "default": "B1" if d else "B0"}
-        elif isinstance(d, enum.Enum):
-            v = {"name": n, "kind": "enum", "enum": 0, "default": f"E0#{d.value}"}
         elif isinstance(d, int):
             v = {"name": n, "kind": "int", "default": f"I{d}"}
         elif isinstance(d, float):
             pool.append(("float", repr(d)))
             v = {"name": n, "kind": "float", "default": f"O{len(pool) - 1}"}
-        else:
-            raise core.InfraError(f"core Config value {n} has a default of unexpected type {type(d).__name__}")
-        vals.append(v)
-    return {"style": "core", "prefix": "PYROLL_CORE", "module": "pyroll.core.config", "values": vals}, pool
+        elif isinstance(d, str):
+            v = {"name": n, "kind": "str", "default": "S" + enc_text(d)}
+        elif isinstance(st.value, ast.Attribute) and isinstance(st.value.value, ast.Name) \
+                and st.value.value.id == "PlottingBackend" and st.value.attr in dict(ENUM_MEMBERS[0]):
+            v = {"name": n, "kind": "enum", "enum": 0, "default": f"E0#{dict(ENUM_MEMBERS[0])[st.value.attr]}"}
+        if should_be_config(n):
+            if v is None:
+                skipped.append(n)           # a default the harness has no token for: that value is not exercised
+            else:
+                vals.append(v)
+        elif isinstance(d, (int, str)) and not isinstance(d, bool):
+            extras.append([n, d])
+    spec = {"style": "core", "prefix": prefix, "module": "pyroll.core.config", "values": vals, "extras": extras,
+            "skipped": skipped}
+    _CORE_SPEC[:] = [spec, pool]
+    return json.loads(json.dumps(spec)), list(pool)
 
 
 def gen_case(rng, n_ops, with_core):
@@ -785,7 +958,10 @@ def gen_case(rng, n_ops, with_core):
     classes, pool = [], list(POOL)
     if with_core:
         c, pool = core_class_spec()
-        classes.append(c)
+        if c is None or not c["values"]:
+            with_core, pool = False, list(POOL)
+        else:
+            classes.append(c)
     for _ in range(rng.choice([1, 1, 2]) if not with_core else rng.choice([0, 1])):
         style = rng.choice(["decorator", "decorator", "decorator", "meta"])
         prefix = rng.choice(PREFIXES) if rng.random() < 0.93 else ("PYROLL_CORE" if with_core else "")
@@ -798,7 +974,7 @@ def gen_case(rng, n_ops, with_core):
             names = ["GROOVE_PADDING", "PLOT_WIDTH"] + names[:2]
         c = {"style": style, "prefix": prefix, "module": rng.choice(["vc20pkg.mod_a", "vc20pkg", "Vc20Pkg.sub.m"]),
              "values": [gen_value_spec(rng, n, style) for n in names],
-             "extras": [["lower_attr", 11], ["_PRIV", "p"], ["Mixed", 0]] if style == "decorator" else [["plain", 5]]}
+             "extras": rng.sample(PLAIN_ATTRS, rng.randrange(1, 5)) if style == "decorator" else [["plain", 5]]}
         classes.append(c)
     case = {"classes": classes, "pool": pool, "ops": []}
     allv = [(ci, v) for ci, c in enumerate(classes) for v in c["values"]]
@@ -809,6 +985,9 @@ def gen_case(rng, n_ops, with_core):
         if c["prefix"].startswith(("VC20", "vc20")):
             near += [c["prefix"] + "_" + v["name"].lower(), c["prefix"] + v["name"], c["prefix"] + "__" + v["name"]]
     near += ["VC20A_LOWER_ATTR", "VC20A__PRIV", "VC20_B_LOWER_ATTR"]
+    for c in classes:                      # the variables the plain attributes WOULD read if they were config values
+        if c["style"] == "decorator" and c["prefix"].startswith(("VC20", "vc20")):
+            near += [c["prefix"] + "_" + n.upper() for n, _ in c["extras"]]
     assigned = set()
     while len(case["ops"]) < n_ops:
         ci, v = rng.choice(allv)
@@ -853,7 +1032,7 @@ def gen_case(rng, n_ops, with_core):
             if rng.random() < 0.35:
                 others = [w["name"] for cj, w in allv if cj != ci and w["name"] not in {x["name"] for x in vs}]
                 unk = rng.choice(["BOGUS", "lower_attr", "_PRIV", "_" + vs[0]["name"], vs[0]["name"].lower() + "_"]
-                                 + others[:2])
+                                 + others[:2] + [n for n, _ in classes[ci].get("extras", [])])
                 if unk not in {x["name"] for x in vs}:
                     pairs.insert(rng.randrange(len(pairs) + 1), [unk, "I5"])
             case["ops"].append(["update", ci, pairs])
@@ -867,7 +1046,8 @@ def gen_case(rng, n_ops, with_core):
 # ---------------------------------------------------------------------------------------------------------------------
 def _cls(values, prefix="VC20A", style="decorator", extras=True):
     return {"style": style, "prefix": prefix, "module": "vc20pkg.mod_a", "values": values,
-            "extras": ([["lower_attr", 11], ["_PRIV", "p"]] if style == "decorator" else []) if extras else []}
+            "extras": extras if isinstance(extras, list) else
+            ([["lower_attr", 11], ["_PRIV", "p"]] if style == "decorator" else []) if extras else []}
 
 
 CORPUS = [
@@ -903,6 +1083,21 @@ CORPUS = [
      "ops": [["setenv", "VC20A_PAIRS", "a=1, b = 2 ,a=3"], ["setenv", "VC20A_ITEMS", " x ,,y"], ["setenv", "VC20A_X1", " 1e3 "],
              ["setenv", "VC20A_Z_9", "x"], ["setenv", "VC20A_PATH_", "a//b/"], ["setenv", "VC20A_PAIRS", "a=b=c"],
              ["setenv", "VC20A_PAIRS", ""], ["setenv", "VC20A_ITEMS", ""], ["setenv", "VC20A_X1", "abc"]]},
+    # every shape of an upper-case public name is a configuration value (digits, inner / trailing / double underscores, single
+    # letters, non-ASCII capitals); leading underscore, lower / mixed case and uncased names stay plain attributes
+    {"classes": [_cls([{"name": "X1", "kind": "int", "default": "I1"}, {"name": "L2_NORM_LIMIT", "kind": "float", "default": "O1"},
+                       {"name": "Q", "kind": "bool", "default": "B0"}, {"name": "\xc4B", "kind": "str", "default": "S" + enc_text("abc")},
+                       {"name": "A__B", "kind": "tuple", "default": "T" + enc_text("a")},
+                       {"name": "PATH_", "kind": "int", "default": "I3", "wrapped": True},
+                       {"name": "R2D2", "kind": "int", "default": "I4", "override": "VC20OV_ONE", "parser": 3}],
+                      extras=[list(x) for x in PLAIN_ATTRS])], "pool": POOL,
+     "ops": [["setenv", "VC20A_X1", "5"], ["setenv", "VC20A_L2_NORM_LIMIT", "0.25"], ["setenv", "VC20A_Q", "TRUE"],
+             ["setenv", "VC20A_\xc4B", "xyz"], ["setenv", "VC20A_A__B", "3, 4"], ["setenv", "VC20A_PATH_", " 7"],
+             ["setenv", "VC20OV_ONE", "four"], ["assign", 0, "X1", "I0"], ["delete", 0, "X1"],
+             ["update", 0, [["X1", "I0"], ["\xc4B", "Se"], ["Q", "B0"]]], ["unsetenv", "VC20A_X1"], ["delete", 0, "X1"],
+             ["delete", 0, "\xc4B"], ["setenv", "VC20A_MIXED", "5"], ["setenv", "VC20A__PRIV", "zz"],
+             ["setenv", "VC20A_\u6570", "7"], ["setenv", "VC20A_\xc4B", "late"], ["setenv", "VC20A_X1", "6"],
+             ["update", 0, [["Mixed", "I1"]]], ["update", 0, [["_X", "I1"], ["X1", "I2"]]], ["update", 0, [["\xe4B", "I1"]]]]},
 ]
 
 
@@ -932,6 +1127,19 @@ def shrink(case, key):
             if has(cand):
                 cur, changed = cand, True
                 break
+    for ci in range(len(cur["classes"]) - 1, -1, -1):          # whole classes (operations on later classes renumbered)
+        if len(cur["classes"]) == 1:
+            break
+        ops = []
+        for op in cur["ops"]:
+            if op[0] in ("assign", "delete", "update"):
+                if op[1] == ci:
+                    continue
+                op = [op[0], op[1] - (1 if op[1] > ci else 0)] + list(op[2:])
+            ops.append(op)
+        cand = dict(cur, classes=cur["classes"][:ci] + cur["classes"][ci + 1:], ops=ops)
+        if has(cand):
+            cur = json.loads(json.dumps(cand))
     used = {(op[1], op[2]) for op in cur["ops"] if op[0] in ("assign", "delete")}
     used |= {(op[1], n) for op in cur["ops"] if op[0] == "update" for n, _ in op[2]}
     for ci, c in enumerate(cur["classes"]):
@@ -944,12 +1152,20 @@ def shrink(case, key):
                 if has(cand):
                     cur = cand
                     c = cur["classes"][ci]
+        for e in list(c.get("extras", [])):
+            cand = json.loads(json.dumps(cur))
+            cand["classes"][ci]["extras"] = [x for x in c["extras"] if x[0] != e[0]]
+            if has(cand):
+                cur = cand
+                c = cur["classes"][ci]
     return cur
 
 
 HOW = ("driver/props/c20.py exec_case(case): build the classes described under `classes` (style decorator = @config(prefix) on "
-       "a class with these attributes; meta = metaclass deriving from ConfigMeta with ConfigValue descriptors; core = "
-       "pyroll.core.Config), apply `ops` with os.environ controlled, read every value after every op "
+       "a class whose body holds the `values` (NAME = default, or NAME = ConfigValue(default, env_var=override, parser=…)) and the "
+       "`extras` (plain attributes that must not become config values); meta = metaclass deriving from ConfigMeta with "
+       "ConfigValue descriptors; core = pyroll.core.Config with the names of its class body), apply `ops` with os.environ "
+       "controlled, read every value after every op "
        "(tokens: I=int B=bool S/P=text as code points, E<enum>#<value>, L/T/D collections, O<i>=pool object, N=None). "
        "./check C20 --replay <this file> re-runs it.")
 
@@ -972,7 +1188,8 @@ def readable(case):
     for ci, c in enumerate(case["classes"]):
         out.append(f"class {ci}: style={c['style']} prefix={c['prefix']!r} values=" + ", ".join(
             f"{v['name']}:{v['kind']}={v['default']}" + (f" parser#{v['parser']}" if v.get("parser") is not None else "")
-            + (f" env_var={v['override']}" if v.get("override") else "") for v in c["values"]))
+            + (f" env_var={v['override']}" if v.get("override") else "") for v in c["values"])
+                   + (" | plain attributes: " + ", ".join(f"{n}={val!r}" for n, val in c["extras"]) if c.get("extras") else ""))
     for op in case["ops"]:
         out.append(" ".join(json.dumps(x) if not isinstance(x, str) else repr(x) for x in op))
     return out
@@ -983,14 +1200,16 @@ def readable(case):
 # ---------------------------------------------------------------------------------------------------------------------
 def parse_stream(ctx, n):
     """-> (lines, impl_out, world) ; oracle problems reported on the way"""
-    import sys
-    import pyroll.core  # noqa
-    cfgmod = sys.modules["pyroll.core.config"]
     _init_enum_members()
     rng = ctx.rng
     case = {"classes": [], "pool": POOL, "enums": list(range(len(ENUMS)))}
     world = World(case)
     lines, out = [], []
+    try:
+        CV = api("ConfigValue")
+    except ImplBroken as e:
+        ctx.violation(e.key, e.what, {"how": "from pyroll.core.config import ConfigValue"})
+        n, CV = 0, None
     for _ in range(n):
         kind = rng.choice(KINDS)
         v = {"name": "X", "kind": kind}
@@ -1000,8 +1219,14 @@ def parse_stream(ctx, n):
             v["parser"] = rng.randrange(len(PARSERS))
         v["default"] = rnd_value_token(rng, kind, v.get("enum"))
         text = clean_env_text(env_text(rng, v))
-        cv = cfgmod.ConfigValue(world.value(v["default"]),
-                                parser=PARSERS[v["parser"]] if v.get("parser") is not None else None)
+        try:
+            cv = impl_call(f"ConfigValue({world.value(v['default'])!r}, parser=…)", CV, world.value(v["default"]),
+                           parser=PARSERS[v["parser"]] if v.get("parser") is not None else None)
+        except ImplBroken as e:
+            ctx.violation(e.key, e.what, {"parse": {"value": v, "text": text}, "problem": e.what,
+                                          "how": "pyroll.core.config.ConfigValue(<default of that kind>, parser=PARSERS[i] "
+                                                 "if given)"})
+            break
         got, exc = None, None
         try:
             got = cv.parse(text)
@@ -1038,6 +1263,11 @@ def parse_stream(ctx, n):
             out.append(f"I{int(t)}")
         except ValueError:
             out.append("none")
+    # the model's `str.isupper` (name test of the decorator) against CPython's: every code point of the table's range, names
+    for t in [chr(i) for i in range(1, 256)] + ["".join(rng.choice(NAME_ALPHABET) for _ in range(rng.randrange(0, 6)))
+                                                 for _ in range(max(50, n // 20))]:
+        lines.append("isupper " + enc_text(t))
+        out.append("1" if t.isupper() else "0")
     return lines, out, world
 
 
@@ -1061,6 +1291,11 @@ def run(ctx):
     n_parse = ctx.budget(5000, 50000)
     max_ops = 16 if ctx.tier == "quick" else 24
     cases = [json.loads(json.dumps(c)) for c in CORPUS]
+    cspec, why = core_class_spec()
+    if cspec is None:
+        ctx.tie_breaks.append(f"core Config: {why} - its values are not exercised")
+    elif cspec["skipped"]:
+        ctx.notes["core_values_not_exercised"] = cspec["skipped"]
     for k in range(n_hist):
         cases.append(gen_case(rng, rng.randrange(4, max_ops), with_core=(k % 5 == 0)))
     all_lines, segments = [], []
@@ -1107,13 +1342,14 @@ def replay(ctx, data):
         for (key, what, i) in problems_of(r["case"]):
             ctx.violation(key, what, r)
     elif "parse" in r:
-        import sys
-        import pyroll.core  # noqa
-        cfgmod = sys.modules["pyroll.core.config"]
         v, text = r["parse"]["value"], r["parse"]["text"]
         world = World({"classes": [], "pool": POOL, "enums": list(range(len(ENUMS)))})
-        cv = cfgmod.ConfigValue(world.value(v["default"]),
-                                parser=PARSERS[v["parser"]] if v.get("parser") is not None else None)
+        try:
+            cv = impl_call("ConfigValue(…)", api("ConfigValue"), world.value(v["default"]),
+                           parser=PARSERS[v["parser"]] if v.get("parser") is not None else None)
+        except ImplBroken as e:
+            ctx.violation(e.key, e.what, r)
+            return
         got, exc = None, None
         try:
             got = cv.parse(text)
